@@ -307,12 +307,12 @@ theorem runErrorHandlers_cases (ehs : List ErrorHandler) (cause : Err) (c : Ctx)
       cases hk : h.kind with
       | default => exact Or.inr ⟨cause, rfl, Or.inl hc⟩
       | wwwAuthenticate => exact Or.inr ⟨.ofKind .authentication, rfl, Or.inl rfl⟩
-      | redirect ok code =>
-        cases ok with
-        | false => exact Or.inl ⟨.ofKind .internal, rfl, rfl⟩
-        | true =>
+      | redirect to code =>
+        cases to with
+        | fails => exact Or.inl ⟨.ofKind .internal, rfl, rfl⟩
+        | value s =>
           exact Or.inr ⟨⟨[], some (redirectCode code)⟩, rfl,
-            Or.inr ⟨h, List.mem_cons_self .., true, code, hk, rfl⟩⟩
+            Or.inr ⟨h, List.mem_cons_self .., .value s, code, hk, rfl⟩⟩
 
 /-- whatever the cause: an error pipeline that reports success has recorded a pipeline error -/
 theorem runErrorHandlers_none (ehs : List ErrorHandler) (cause : Err) (c c' : Ctx)
@@ -333,12 +333,30 @@ theorem runErrorHandlers_none (ehs : List ErrorHandler) (cause : Err) (c c' : Ct
       | wwwAuthenticate =>
         simp only [hk, EHKind.run, Prod.mk.injEq, true_and] at h
         exact ⟨_, by rw [← h]; rfl⟩
-      | redirect ok code =>
-        cases ok with
-        | false => simp [hk, EHKind.run] at h
-        | true =>
+      | redirect to code =>
+        cases to with
+        | fails => simp [hk, EHKind.run] at h
+        | value s =>
           simp only [hk, EHKind.run, Prod.mk.injEq, true_and] at h
           exact ⟨_, by rw [← h]; rfl⟩
+
+/-- the value a redirect handler rendered does not reach the result of the error pipeline -/
+theorem runErrorHandlers_rendered (pre post : List ErrorHandler) (cond : Cond) (code : Nat) (s s' : String)
+    (cause : Err) (c : Ctx) :
+    runErrorHandlers (pre ++ ⟨cond, .redirect (.value s) code⟩ :: post) cause c =
+    runErrorHandlers (pre ++ ⟨cond, .redirect (.value s') code⟩ :: post) cause c := by
+  induction pre with
+  | nil =>
+    simp only [List.nil_append, runErrorHandlers]
+    cases cond.onError cause <;> rfl
+  | cons x xs ih =>
+    simp only [List.cons_append, runErrorHandlers, ih]
+
+/-- rule execution sees the error handlers only through `runErrorHandlers` -/
+theorem execute_congr_errorHandlers (r : Rule) (ehs ehs' : List ErrorHandler)
+    (h : ∀ e c, runErrorHandlers ehs e c = runErrorHandlers ehs' e c) (c : Ctx) :
+    ({ r with errorHandlers := ehs } : Rule).execute c = ({ r with errorHandlers := ehs' } : Rule).execute c := by
+  simp only [Rule.execute, Rule.onError, h]
 
 theorem onError_cases (r : Rule) (e : Err) (c : Ctx) (he : e.redirect = none) :
     (∃ x, r.onError e c = .done ⟨false, some x⟩ c ∧ x.redirect = none) ∨
@@ -600,7 +618,7 @@ def failing : Rule :=
                  ⟨"hydrate", .always, .err [.communication], true⟩,
                  ⟨"acl", .subjectIs "alice", .err [.authorization], false⟩]
     finalizers := [⟨"jwt-out", .always, .ok, false⟩]
-    errorHandlers := [⟨.errorIs .authentication, .wwwAuthenticate⟩, ⟨.errorIs .authorization, .redirect true 303⟩]
+    errorHandlers := [⟨.errorIs .authentication, .wwwAuthenticate⟩, ⟨.errorIs .authorization, .redirect (.value "https://login.example.com/") 303⟩]
     hasBackend := true }
 
 /-- the same rule without the failing authorizer -/
@@ -613,7 +631,7 @@ def cfg : Cfg := { authn := 418, internal := 503, accepted := 202 }
 def cfgAuthzOk : Cfg := { authz := 200 }
 
 /-- a redirect error handler configured with a 2xx code (rejected by the schema, accepted by the decoder) -/
-def redirect200 : Rule := { failing with errorHandlers := [⟨.always, .redirect true 200⟩] }
+def redirect200 : Rule := { failing with errorHandlers := [⟨.always, .redirect (.value "https://login.example.com/") 200⟩] }
 
 /-- a panic in a step marked continue-on-error -/
 def panicking : Rule := { completing with finalizers := [⟨"hdr", .always, .panic [], true⟩] }
